@@ -178,6 +178,14 @@ func (c *Crew) SetMachine(ctx context.Context, mid string, src *crew.SpecSource,
 		}
 
 		c.Machines[mid] = m
+
+		if ch, pending := c.changed[mid]; pending && ch.Deleted {
+			// Re-created before the deletion was reported:
+			// report a fresh machine, not a deleted one.
+			ch.Deleted = false
+			ch.SpecSrc = nil
+			ch.State = m.State
+		}
 	} else if state != nil {
 		m.State = DefaultState(state)
 	}
